@@ -29,10 +29,21 @@ func (e *t2TextEnv) enter(p *Prog, x *ssa.Call) *t2TextEnv {
 		return nil
 	}
 	callee := x.Common().StaticCallee()
-	if callee == nil || callee.Blocks == nil || !p.InPkg(callee) || callee.Signature.Recv() == nil {
+	if callee == nil || callee.Blocks == nil || !p.InPkg(callee) {
 		return nil
 	}
-	if n := structOf(callee.Signature.Recv().Type()); n == nil || n.Obj().Name() != "nodeHTML" {
+	if callee.Signature.Recv() == nil {
+		// a plain helper that is given the text (`trimFirstNewline(s string) string`)
+		hasText := false
+		for _, pa := range callee.Params {
+			if bt, ok := pa.Type().Underlying().(*types.Basic); ok && bt.Kind() == types.String {
+				hasText = true
+			}
+		}
+		if !hasText {
+			return nil
+		}
+	} else if n := structOf(callee.Signature.Recv().Type()); n == nil || n.Obj().Name() != "nodeHTML" {
 		return nil
 	}
 	rs := callee.Signature.Results()
@@ -63,7 +74,7 @@ func (e *t2TextEnv) actual(pa *ssa.Parameter) (ssa.Value, *t2TextEnv) {
 	}
 	idx := indexOfParam(callee, pa)
 	args := callArgs(e.call.Common())
-	if idx == 0 || idx >= len(args) { // 0 is the receiver
+	if (idx == 0 && callee.Signature.Recv() != nil) || idx >= len(args) { // 0 is the receiver of a method
 		return nil, nil
 	}
 	return args[idx], e.outer
